@@ -543,44 +543,43 @@ Definition do_directive (base : N) (d : dspec) (args : list arg) (b : buf) (out 
 Definition printable (c : N) : bool := ((32 <=? c) && (c <=? 126)) || (c =? 10) || (c =? 13) || (c =? 9).
 
 (* the `while (true)` loop; every iteration consumes at least one byte of the format, so fuel
-   `length fmt + 1` is never exhausted.  maxw: the largest parsed field width (ghost output used
-   only to state the address-space hypothesis of the no-fault theorem) *)
-Fixpoint vs_loop (fuel : nat) (base : N) (inp : bytes) (args : list arg) (b : buf) (out e maxw : N)
-  : option (buf * N * N) :=
+   `length fmt + 1` is never exhausted *)
+Fixpoint vs_loop (fuel : nat) (base : N) (inp : bytes) (args : list arg) (b : buf) (out e : N)
+  : option (buf * N) :=
   match fuel with
   | O => None
   | S f =>
-    if e <=? out then Some (b, out, maxw) else
+    if e <=? out then Some (b, out) else
     match nextc inp with
-    | None => Some (b, out, maxw)
+    | None => Some (b, out)
     | Some (c, inp) =>
       if negb (c =? 37) then
         let '(b, out) := if printable c then outc c b out e else (b, out) in
-        vs_loop f base inp args b out e maxw
+        vs_loop f base inp args b out e
       else
         match nextc inp with
-        | None => Some (b, out, maxw)
+        | None => Some (b, out)
         | Some (c, inp) =>
           match parse_directive c inp with
-          | None => Some (b, out, maxw)
+          | None => Some (b, out)
           | Some d =>
             match do_directive base d args b out e with
             | None => None
-            | Some (b, out, args) => vs_loop f base (d_rest d) args b out e (N.max maxw (d_width d))
+            | Some (b, out, args) => vs_loop f base (d_rest d) args b out e
             end
           end
         end
     end
   end.
 
-(* _mi_vsnprintf(buf, bufsize, fmt, args): buffer, return value, ghost maxw *)
-Definition vsnprintf (base : N) (b : buf) (bufsize : N) (fmt : bytes) (args : list arg) : option (buf * N * N) :=
-  if bufsize =? 0 then Some (b, 0, 0) else
+(* _mi_vsnprintf(buf, bufsize, fmt, args): the buffer and the return value *)
+Definition vsnprintf (base : N) (b : buf) (bufsize : N) (fmt : bytes) (args : list arg) : option (buf * N) :=
+  if bufsize =? 0 then Some (b, 0) else
   let b := bput b (bufsize - 1) 0 in
   let e := bufsize - 1 in
-  match vs_loop (S (List.length fmt)) base fmt args b 0 e 0 with
+  match vs_loop (S (List.length fmt)) base fmt args b 0 e with
   | None => None
-  | Some (b, out, maxw) => Some (bput b out 0, out, maxw)
+  | Some (b, out) => Some (bput b out 0, out)
   end.
 
 (* ---------------------------------------------------------------------------------------- *)
